@@ -86,13 +86,6 @@ def _exchange(p_tls, c_cont, c_force, p_shared, c_shared, p_alt, c_alt, hs_fail,
         stage = 'oracle'
         tls_works = p_tls and c_cont and not hs_fail
         plain_works = (not p_tls) and not c_force
-        # ---------------- sanity: the scenario really ran where the configurations are compatible (no vacuous pass)
-        if tls_works or plain_works:
-            orc.check(started, 'harness:compatible-configuration-did-not-start')
-            orc.check(n_subscr >= 1, 'harness:no-subscription-established')
-            orc.check(len(_urls('provider', p_port)) > 0, 'harness:no-provider-url-seen')
-            orc.check(c_port is not None and len(_urls('consumer', c_port)) > 0, 'harness:no-consumer-url-seen')
-            orc.check(len(_conns('provider')) > 0, 'harness:provider-opened-no-connection')
         # ---------------- provider configured with TLS
         if p_tls:
             for x in xaddrs:
@@ -134,6 +127,13 @@ def _exchange(p_tls, c_cont, c_force, p_shared, c_shared, p_alt, c_alt, hs_fail,
                     for scheme, where in _urls('consumer', c_port):
                         orc.check(scheme == 'https', 'plaintext_url_advertised:' + where)
                     orc.check(cons._http_server._ssl_context is cc.server_context, 'server_without_tls_context:consumer')
+        # ---------------- sanity: the scenario really ran where the configurations are compatible (no vacuous pass)
+        if tls_works or plain_works:
+            orc.check(started, 'harness:compatible-configuration-did-not-start')
+            orc.check(n_subscr >= 1, 'harness:no-subscription-established')
+            orc.check(len(_urls('provider', p_port)) > 0, 'harness:no-provider-url-seen')
+            orc.check(c_port is not None and len(_urls('consumer', c_port)) > 0, 'harness:no-consumer-url-seen')
+            orc.check(len(_conns('provider')) > 0, 'harness:provider-opened-no-connection')
         del start_error
     except Exception as ex:  # noqa: BLE001
         return exc_result(orc, ex, stage)
